@@ -5,7 +5,7 @@ sys.path.insert(0, os.path.join(ROOT, 'tools'))
 import runner
 t0 = time.time()
 plugins = []
-for f in sorted(glob.glob(os.path.join(ROOT, 'tools', 'props', 'C*.py'))):
+for f in sorted(glob.glob(os.path.join(ROOT, 'tools', 'props', 'C[0-9][0-9].py'))):
     plugins.append(importlib.import_module('props.' + os.path.basename(f)[:-3]))
 with runner.Lock('coq.lock'):
     items = list(runner.COMMON_GEN)
